@@ -266,6 +266,10 @@ impl DepthFirstSearch {
         goal.status = GoalStatus::InProgress;
         goal.depth = depth;
 
+        // Solutions found for *this* goal (the shared `solutions` list also holds
+        // the solutions of sub-goals proved further down the recursion).
+        let mut found_here = false;
+
         // Try each candidate rule
         for rule_name in goal.candidate_rules.clone() {
             self.path.push(rule_name.clone());
@@ -288,9 +292,16 @@ impl DepthFirstSearch {
                             bindings: goal.bindings.to_map(),
                         });
 
-                        // If we only want one solution OR we've found enough, stop searching
-                        if self.max_solutions == 1 || self.solutions.len() >= self.max_solutions {
-                            return true; // keep changes
+                        found_here = true;
+
+                        // Sub-goals are proved once and keep their derivation (the parent needs it);
+                        // only the root goal collects several solutions.
+                        if depth > 0
+                            || self.max_solutions == 1
+                            || self.solutions.len() >= self.max_solutions
+                        {
+                            facts.commit_undo_frame(); // keep changes
+                            return true;
                         }
 
                         // Otherwise (max_solutions > 1 and not enough yet), rollback and continue
@@ -315,11 +326,15 @@ impl DepthFirstSearch {
                                         bindings: goal.bindings.to_map(),
                                     });
 
-                                    // If we only want one solution OR we've found enough, stop searching
-                                    if self.max_solutions == 1
+                                    found_here = true;
+
+                                    // Sub-goals keep their first derivation; only the root collects several
+                                    if depth > 0
+                                        || self.max_solutions == 1
                                         || self.solutions.len() >= self.max_solutions
                                     {
-                                        return true; // keep changes
+                                        facts.commit_undo_frame(); // keep changes
+                                        return true;
                                     }
 
                                     // Otherwise, rollback and continue searching
@@ -370,8 +385,8 @@ impl DepthFirstSearch {
             facts.rollback_undo_frame();
         }
 
-        // If we found at least one solution (even if less than max_solutions), consider it proven
-        if !self.solutions.is_empty() {
+        // If we found at least one solution for this goal (even if less than max_solutions), consider it proven
+        if found_here {
             goal.status = GoalStatus::Proven;
             // For negated goals, finding a proof means negation fails
             return !goal.is_negated;
